@@ -126,45 +126,66 @@ def _argval(v):
     return ("num", v)
 
 
-def tree_of(cmd, as_test=False):
+def tree_of(cmd, as_test=False, grouped=False):
+    """grouped=False: args is the flat source-order sequence (tag, its
+    parameter, positional values ...).  grouped=True: args is
+    (sorted tuple of (tag, parameter-or-None), tuple of positional values) -
+    tagged arguments are an unordered set, as they are for the language."""
     args = []
+    groups = []
     tests = []
     Command = sl_commands.Command
     for k, v in cmd.arguments.items():
         if isinstance(v, Command):
-            tests.append(tree_of(v, True))
+            tests.append(tree_of(v, True, grouped))
         elif isinstance(v, list) and v and all(isinstance(x, Command) for x in v):
-            tests.extend(tree_of(x, True) for x in v)
+            tests.extend(tree_of(x, True, grouped) for x in v)
         else:
-            args.append(_argval(v))
+            av = _argval(v)
+            if grouped and av[0] == "tag":
+                groups.append((av[1], _argval(cmd.extra_arguments[k]) if k in cmd.extra_arguments else None))
+                continue
+            args.append(av)
         if k in cmd.extra_arguments:
             args.append(_argval(cmd.extra_arguments[k]))
     if as_test:
         children = None
     elif getattr(cmd, "accept_children", False):
-        children = tuple(tree_of(c) for c in cmd.children)
+        children = tuple(tree_of(c, False, grouped) for c in cmd.children)
     else:
         children = None
-    return (_b(cmd.name).lower(), tuple(args), tuple(tests), children)
+    if grouped:
+        args = (tuple(sorted(groups, key=repr)), tuple(args))
+    else:
+        args = tuple(args)
+    return (_b(cmd.name).lower(), args, tuple(tests), children)
 
 
-def forest_of(result):
-    return [tree_of(c) for c in result]
+def forest_of(result, grouped=False):
+    return [tree_of(c, False, grouped) for c in result]
 
 
-def norm_tree(node):
-    """Normalise a (name,args,tests,children) node for comparison: multi-line
-    raw values lose trailing CR (line-ending style of the final '.' line)."""
+def _nv(av):
+    if av is None:
+        return None
+    kind, v = av
+    if kind == "str" and v[:1] != b'"':
+        v = v.rstrip(b"\r")
+    elif kind == "list":
+        v = tuple(x.rstrip(b"\r") if x[:1] != b'"' else x for x in v)
+    return (kind, v)
+
+
+def norm_tree(node, grouped=False):
+    """Normalise a node for comparison: multi-line raw values lose a trailing
+    CR (line-ending style of the final '.' line)."""
     name, args, tests, children = node
-    nargs = []
-    for kind, v in args:
-        if kind == "str" and v[:1] != b'"':
-            v = v.rstrip(b"\r")
-        elif kind == "list":
-            v = tuple(x.rstrip(b"\r") if x[:1] != b'"' else x for x in v)
-        nargs.append((kind, v))
-    return (name, tuple(nargs), tuple(norm_tree(t) for t in tests),
-            None if children is None else tuple(norm_tree(c) for c in children))
+    if grouped:
+        nargs = (tuple((t, _nv(p)) for t, p in args[0]), tuple(_nv(a) for a in args[1]))
+    else:
+        nargs = tuple(_nv(a) for a in args)
+    return (name, nargs, tuple(norm_tree(t, grouped) for t in tests),
+            None if children is None else tuple(norm_tree(c, grouped) for c in children))
 
 
 def render(result):
